@@ -1,4 +1,5 @@
 import PyodaProofs.C08
+import PyodaProofs.C08Create
 
 #print axioms Pyoda.C08.parseDigits_total
 #print axioms Pyoda.C08.parseFraction_total
@@ -15,3 +16,13 @@ import PyodaProofs.C08
 #print axioms Pyoda.C08.rollover_at_max_is_failure
 #print axioms Pyoda.C08.year_below_minimum_is_failure
 #print axioms Pyoda.C08.trailing_nul_is_failure
+#print axioms Pyoda.C08.repeatCount_onlyInvalid
+#print axioms Pyoda.C08.quotedString_onlyInvalid
+#print axioms Pyoda.C08.embeddedPattern_onlyInvalid
+#print axioms Pyoda.C08.handleChar_onlyInvalid
+#print axioms Pyoda.C08.compileLoop_onlyInvalid
+#print axioms Pyoda.C08.compileTime_total
+#print axioms Pyoda.C08.compileDate_total
+#print axioms Pyoda.C08.compileOffset_total
+#print axioms Pyoda.C08.compile_total
+#print axioms Pyoda.C08.invariantCulture_offsetTextsCustom
